@@ -12,6 +12,9 @@ import Proofs.E2E.C16Raw
 import Proofs.C16.LG
 import Proofs.C16.SilentPaymentsE2E
 import Proofs.C16.SilentPaymentsGroups
+import Proofs.C16.Reductions
+import Proofs.C16.EciesExample
+import Proofs.E2E.C16Uncond
 /-!
 # C16 — property theorems only (see DESIGN.md §3 C16).
 
@@ -94,6 +97,34 @@ theorem musig2_nonce_agg_defined (L : Lawful o G) (hp : o.p ≤ 256 ^ 32) (l : L
   obtain ⟨S1, S2, h, -, -⟩ := nonceAgg_honest L hp l hl
   exact ⟨_, h⟩
 
+/-- **BIP327's infinity special case, `nonce_agg`.** Honest nonces that CANCEL (a half whose secret nonces sum to
+`0 mod n`, e.g. two signers using `k` and `n − k`): `nonce_agg` does not fail, it writes that half as the 33 zero
+bytes (`infBytes`), and `cpoint_ext` — what the session parses aggregate nonces with — reads each half back as the
+point it encodes (streams `nonce_agg:cancel`, `aggnonce:infinity` run this on the real code). -/
+theorem musig2_nonce_agg_infinity (L : Lawful o G) (hp : o.p ≤ 256 ^ 32) (l : List Signer) (hl : ∀ t ∈ l, t.ok o) :
+    ∃ S1 S2, nonceAgg o (l.map (Signer.pubNonce o)) = .ok (cbytesExt o S1 ++ cbytesExt o S2) ∧
+      ((l.map Signer.k1).sum % o.n = 0 → cbytesExt o S1 = infBytes) ∧
+      ((l.map Signer.k2).sum % o.n = 0 → cbytesExt o S2 = infBytes) ∧
+      (∃ Q1, cpointExt o (cbytesExt o S1) = .ok Q1 ∧ L.abs Q1 = ((l.map Signer.k1).sum) • L.abs o.gen) ∧
+      (∃ Q2, cpointExt o (cbytesExt o S2) = .ok Q2 ∧ L.abs Q2 = ((l.map Signer.k2).sum) • L.abs o.gen) :=
+  nonceAgg_cancelling L hp l hl
+
+/-- **BIP327's infinity special case, the final nonce.** In ANY session that assembles: if `R₁ + b·R₂` is the identity,
+`session_values` goes on with the generator in its place (`R = G`, challenge on `x(G)`); otherwise `R = R₁ + b·R₂`.
+T2 has no hypothesis on the nonce, so every honest partial signature still verifies in the first case; T3's hypothesis
+`hR` excludes exactly it (the aggregate is then deliberately invalid). -/
+theorem musig2_final_nonce_infinity (H : Bytes → Bytes → Bytes) (s : SessionCtx) (v : SessionValues α)
+    (hv : sessionValues o H s = .ok v) :
+    ∃ kc R1 R2, sessionPoints o H s = .ok (kc, R1, R2) ∧
+      (o.isZero (o.add R1 (o.mul v.b R2)) = true → v.R = o.gen ∧ v.e = challenge o H (o.x o.gen) (o.x v.Q) s.msg) ∧
+      (o.isZero (o.add R1 (o.mul v.b R2)) = false → v.R = o.add R1 (o.mul v.b R2)) :=
+  sessionValues_final_nonce_infinity H hv
+
+/-- non-vacuity: on ℤ/3 the two signers of `ToyEx.l0` use `k₁ = k₂ = 1` twice — sums `2`; with a third the first halves
+cancel (`1 + 1 + 1 ≡ 0`): `nonce_agg` answers the infinity placeholder in both halves -/
+example : nonceAgg ToyEx.T ((⟨1, 1, 1⟩ :: ToyEx.l0).map (Signer.pubNonce ToyEx.T)) = .ok (infBytes ++ infBytes) := by
+  decide +kernel
+
 /-- **T4 (adaptor).** The same honest session carrying the adaptor point `T = t•G`:
 `partial_sig_agg_adaptor` answers a pre-signature, `adapt` with the secret `t` completes it into a
 signature that satisfies BIP340 verification for the aggregate key, and `extract_adaptor` of the two
@@ -169,19 +200,50 @@ theorem ecdh_symmetric_base (L : LawfulGroup o G) (kdf : Bytes → R Bytes) (a b
 
 /-! ## DLEQ (BIP374) -/
 
-/-- **T8 (verification equation).** `assert_proof_as_valid` accepts exactly when the sizes are right,
-`s < n`, `R₁ = s•G' − e•A ≠ ∞`, `R₂ = s•B − e•C ≠ ∞` and `e` is the challenge hash of
-`(A, B, C, G', R₁, R₂, m)`. -/
-theorem dleq_verify_iff (H : Bytes → Bytes → Bytes) (A B C Gp : α) (proof : Bytes) (msg : Option Bytes) :
+/-- **T8 (verification equation, in the group).** `assert_proof_as_valid` accepts `(e, s)` exactly when the message and
+proof have the right sizes, `s < n`, the commitments `R₁ = s•G' − e•A` and `R₂ = s•B − e•C` are not the identity, and `e`
+is the challenge hash of `(A, B, C, G', R₁, R₂, m)` — for ANY representatives of `R₁`, `R₂` (the hash reads their
+compressed encodings, which are functions of the group element).  (The plain unfolding of `dleqVerify` into its five
+guards is `dleqVerify_iff` in `Proofs/C16/Dleq.lean`; it is a lemma, not counted here.) -/
+theorem dleq_verify_iff (L : LawfulGroup o G) (H : Bytes → Bytes → Bytes) (A B C Gp : α) (proof : Bytes)
+    (msg : Option Bytes) :
     dleqVerify o H A B C proof Gp msg = .ok () ↔
-      ∃ m, dleqMsg msg = .ok m ∧ proof.length = 64 ∧
-        fromBytesBE (proof.drop 32) < o.n ∧
-        o.isZero (o.dmul (fromBytesBE (proof.drop 32)) Gp (-(fromBytesBE (proof.take 32))) A) = false ∧
-        o.isZero (o.dmul (fromBytesBE (proof.drop 32)) B (-(fromBytesBE (proof.take 32))) C) = false ∧
-        fromBytesBE (proof.take 32) =
-          dleqChallenge o H A B C (o.dmul (fromBytesBE (proof.drop 32)) Gp (-(fromBytesBE (proof.take 32))) A)
-            (o.dmul (fromBytesBE (proof.drop 32)) B (-(fromBytesBE (proof.take 32))) C) Gp m :=
-  dleqVerify_iff H A B C Gp proof msg
+      ∃ m, dleqMsg msg = .ok m ∧ proof.length = 64 ∧ fromBytesBE (proof.drop 32) < o.n ∧
+        fromBytesBE (proof.drop 32) • L.abs Gp - fromBytesBE (proof.take 32) • L.abs A ≠ 0 ∧
+        fromBytesBE (proof.drop 32) • L.abs B - fromBytesBE (proof.take 32) • L.abs C ≠ 0 ∧
+        ∀ R1 R2 : α,
+          L.abs R1 = fromBytesBE (proof.drop 32) • L.abs Gp - fromBytesBE (proof.take 32) • L.abs A →
+          L.abs R2 = fromBytesBE (proof.drop 32) • L.abs B - fromBytesBE (proof.take 32) • L.abs C →
+          fromBytesBE (proof.take 32) = dleqChallenge o H A B C R1 R2 Gp m :=
+  dleq_verify_group_iff H L A B C Gp proof msg
+
+/-- **T8 (for no altered statement), as a reduction with explicit witnesses.** Take the honest proof `(e, s)` made with
+secret `a` and nonce `k` for the statement `(A = a•G', B, C = a•B)`, generator `G'`, message `m`.  If
+`assert_proof_as_valid` accepts it for ANY statement `(A', B', C')`, generator `G''`, message `m'` whose encoding
+differs from the original's in at least one of the five places (an altered point, generator or message), then the two
+challenge preimages — both written out as terms: the prover's `A‖B‖C‖G'‖k•G'‖k•B‖m` and the verifier's
+`A'‖B'‖C'‖G''‖(s•G''−e•A')‖(s•B'−e•C')‖m'` — are DIFFERENT octet strings with the SAME tagged hash: a collision of the
+challenge hash, exhibited (not the pigeonhole existential).  No group law is used: any `GroupOps`, any hash with 32-byte
+digests.  Together with `dleq_special_sound` (a false statement is accepted for one challenge value per commitment pair
+at most) this is the soundness reduction; unconditional soundness is not claimed. -/
+theorem dleq_altered_statement_collides (H : Bytes → Bytes → Bytes) (hn : 0 < o.n ∧ o.n ≤ 256 ^ 32)
+    (hH : ∀ t m, (H t m).length = 32)
+    (a k : Int) (B Gp : α) (m : Bytes) (A' B' C' Gp' : α) (msg' : Option Bytes) (m' : Bytes)
+    (hm' : dleqMsg msg' = .ok m')
+    (halt : ¬ (cbytes o (o.mul a Gp) = cbytes o A' ∧ cbytes o B = cbytes o B' ∧ cbytes o (o.mul a B) = cbytes o C'
+      ∧ cbytes o Gp = cbytes o Gp' ∧ m = m'))
+    (hacc : dleqVerify o H A' B' C' (dleqProofOf o H a k B Gp m) Gp' msg' = .ok ()) :
+    let e := dleqChallenge o H (o.mul a Gp) B (o.mul a B) (o.mul k Gp) (o.mul k B) Gp m
+    let s := (k + e * a) % o.n
+    let t := dleqPreimage o (o.mul a Gp) B (o.mul a B) (o.mul k Gp) (o.mul k B) Gp m
+    let t' := dleqPreimage o A' B' C' (o.dmul s Gp' (-e) A') (o.dmul s B' (-e) C') Gp' m'
+    t ≠ t' ∧ H Gen.Interactive.DLEQ_CHALLENGE_TAG t = H Gen.Interactive.DLEQ_CHALLENGE_TAG t' :=
+  Btc.C16.dleq_altered_statement_collides H hn hH a k B Gp m A' B' C' Gp' msg' m' hm' halt hacc
+
+/-- `dleqPreimage` is what `_challenge` hashes: the challenge is the big-endian integer of its tagged hash -/
+example (H : Bytes → Bytes → Bytes) (A B C R1 R2 Gp : α) (m : Bytes) :
+    dleqChallenge o H A B C R1 R2 Gp m
+      = fromBytesBE (H Gen.Interactive.DLEQ_CHALLENGE_TAG (dleqPreimage o A B C R1 R2 Gp m)) := rfl
 
 /-- **T8 (completeness).** For any secret `a`, any nonce `k ∈ 1..n-1`, any generator `G' ≠ ∞`, any
 `B ≠ ∞` and any message, the proof `(e, k + e·a)` verifies for the statement `(a•G', B, a•B)` it was
@@ -405,6 +467,35 @@ theorem ecies_wrong_key_different_kdf_input (L : Lawful o G) (hp : o.p ≤ 256 ^
     cbytes o (o.mul d' E) ≠ cbytes o (o.mul q P) :=
   ecies_wrong_key_kdf_input L hp d d' q hq hdd P E hP hE h1 h2
 
+/-- **T7 (for no other key), as a reduction with explicit witnesses.** `env` is what `encrypt` answered for the public
+key `P = d•G` with ephemeral key `q`.  If `decrypt` with a key `d' ≢ d (mod n)` ACCEPTS `env` (returns any plaintext at
+all), then the two KDF inputs — the compressed shared points `d'•(q•G)` the other key computes and `q•P` the sender used —
+are DIFFERENT 33-byte strings whose derived MAC keys (bytes 32.. of `sha512`) give the SAME tag on the envelope's
+framing `magic ‖ eph ‖ ciphertext` (= `env` without its last 32 bytes): a MAC forgery under an unrelated key or a
+collision of `sha512`'s tail, exhibited as terms.  Any cipher, MAC and `sha512` (parameters); secrecy is not claimed. -/
+theorem ecies_wrong_key_forges (L : Lawful o G) (h512 : Bytes → Bytes) (mac : Bytes → Bytes → Bytes)
+    (hp : o.p ≤ 256 ^ 32) (encF decF : Bytes → Bytes → Bytes → R Bytes)
+    (d : Int) (hd : 0 < d ∧ d < o.n) (P : α) (hP : L.abs P = d • L.abs o.gen)
+    (q : Int) (msg magic env : Bytes) (henc : eciesEncrypt o h512 mac encF msg P q magic = .ok env)
+    (d' : Int) (hdd : (d' - d) % o.n ≠ 0) (m' : Bytes)
+    (hdec : eciesDecrypt o h512 mac decF env d' magic = .ok m') :
+    cbytes o (o.mul d' (o.mul q o.gen)) ≠ cbytes o (o.mul q P) ∧
+    mac ((h512 (cbytes o (o.mul d' (o.mul q o.gen)))).drop 32) (env.take (env.length - 32))
+      = mac ((h512 (cbytes o (o.mul q P))).drop 32) (env.take (env.length - 32)) :=
+  Btc.C16.ecies_wrong_key_forges L h512 mac hp encF decF d hd P hP q msg magic env henc d' hdd m' hdec
+
+/-! ### non-vacuity of T7: an envelope `encrypt` actually ANSWERS (`.ok env`), on the lawful group ℤ/3, with a cipher
+that appends one byte (a 15-byte message gives one 16-byte block; `D(E(m)) = m` proved below), a "sha512" and a "MAC"
+that depend on their inputs (`Proofs/C16/EciesExample.lean`); `decrypt` with the recipient's key returns the message BY THE THEOREM, and evaluation
+agrees; the other key of the group (`1` instead of `2`) is refused at the MAC (`err runtime`) -/
+
+example : eciesDecrypt ToyEx.T EciesEx.h512 EciesEx.mac EciesEx.dec EciesEx.env 2 EciesEx.magic = .ok EciesEx.msg :=
+  ecies_decrypt_encrypt Btc.Taproot.Toy.lawful EciesEx.h512 EciesEx.mac ToyEx.hp.1 EciesEx.enc EciesEx.dec EciesEx.hD
+    2 (by decide) (ToyEx.T.mul 2 ToyEx.T.gen) (Btc.Taproot.Toy.lawful.abs_mul 2 _) 1 EciesEx.msg EciesEx.magic
+    EciesEx.env EciesEx.henc
+example : eciesDecrypt ToyEx.T EciesEx.h512 EciesEx.mac EciesEx.dec EciesEx.env 1 EciesEx.magic = .error .runtime := by
+  decide +kernel
+
 /-- the hypotheses of T7 are jointly satisfiable: a cipher that pads (one byte appended; `encrypt` refuses a
 cipher that does not lengthen the message) with `D(E(m)) = m`, and the generated BIE1 sizes are the ones the
 proofs used -/
@@ -604,30 +695,37 @@ theorem borromean_closing_step_partial {α G : Type} [AddCommGroup G] {o : Group
     cbytes o (o.dmul (-e) (o.mul q o.gen) ((k + q * e) % o.n) o.gen) = cbytes o (o.mul k o.gen) :=
   borromean_closing_step L q k e hk
 
-/-! ## MuSig2 end to end over the RAW arithmetic the driver executes (`Btc.EC.ops secp256k1`)
+/-! ## MuSig2 end to end over the RAW arithmetic the driver executes (`Btc.EC.ops secp256k1`): NO curve-level hypothesis
 
-`Proofs/E2E/C16Raw.lean`: every MuSig2 model function commutes with an `OpsHom` (C01's `opsSub_hom`: the lawful
-carrier `opsSub` and `Btc.EC.ops C` run alike under cofactor one), so T2 / T3 hold for `sign`, `partial_sig_verify_`,
-`nonce_agg`, `session_values`, `partial_sig_agg` and BIP340 verification computed by `Btc.EC.ops secp256k1` ITSELF.
-The ONE hypothesis left is `hcof` — cofactor one, `∀ g, n • g = 0` on Mathlib's point group of secp256k1 (it needs
-the point count `#E(F_p) = n`, not proved here); primality of `p` and `n` (Pratt certificates), `CurveOk`,
-`p ≡ 3 mod 4` and `Δ ≠ 0` are PROVED. What remains un-transferred: T4 (adaptor) and T1 are stated over a lawful
-instance only (their raw forms follow the same way and are not written out). -/
+`Proofs/E2E/C16Raw.lean`, `Proofs/E2E/C16Uncond.lean`: every MuSig2 model function commutes with an `OpsHom` (C01's
+`opsSub_hom`: the lawful carrier `opsSub` and `Btc.EC.ops C` run alike under cofactor one), so T1–T4 hold for `key_agg`,
+`apply_tweak`, `sign`, `partial_sig_verify_`, `nonce_agg`, `session_values`, `partial_sig_agg(_adaptor)`, `adapt`,
+`extract_adaptor` and BIP340 verification computed by `Btc.EC.ops secp256k1` ITSELF.  Cofactor one of secp256k1
+(`∀ g, n • g = 0` on Mathlib's point group, i.e. `#E(F_p) = n`) is PROVED (`Btc.E2E.secpCofactorOne`,
+Proofs/E2E/CofactorOne.lean), as are primality of `p` and `n` (Pratt certificates), `CurveOk`, `p ≡ 3 mod 4` and
+`Δ ≠ 0`: the four theorems below carry no hypothesis about the curve.  (The generic forms, for any `CurveOk p C` with
+`p ≡ 3 mod 4`, `Δ ≠ 0` and the NAMED hypothesis `hcof`, are `Btc.C16.Raw.musig2_*_raw` in those two files.) -/
+
+/-- **T1 on the executed arithmetic.** After `key_agg` and any plain / x-only tweaks computed by `Btc.EC.ops secp256k1`:
+`Q ≠ ∞` and `Q == gacc·Q₀ + tacc·G` with the executed `mult`, `add` and point equality. -/
+theorem musig2_tweak_invariant_secp256k1_raw (H : Bytes → Bytes → Bytes) (pks : List Bytes)
+    (tweaks : List (Bytes × Bool)) (c : KeyAggCtx EC.Point)
+    (hc : keyAggAndTweak (EC.ops EC.secp256k1) H pks tweaks = .ok c) :
+    ∃ c0, keyAgg (EC.ops EC.secp256k1) H pks = .ok c0 ∧ (EC.ops EC.secp256k1).isZero c.Q = false ∧
+      (EC.ops EC.secp256k1).eq c.Q ((EC.ops EC.secp256k1).add ((EC.ops EC.secp256k1).mul c.gacc c0.Q)
+        ((EC.ops EC.secp256k1).mul c.tacc (EC.ops EC.secp256k1).gen)) = true :=
+  Btc.C16.Raw.musig2_tweak_invariant_secp256k1 H pks tweaks c hc
 
 theorem musig2_partial_sig_verifies_secp256k1_raw
-    (hcof : ∀ g : @Btc.C01.Pt Btc.E2E.secp256k1_p ⟨Btc.E2E.secp256k1_p_prime⟩ EC.secp256k1.toCurveGroup,
-      EC.secp256k1.n • g = 0)
     (H : Bytes → Bytes → Bytes) (s : SessionCtx) (d k1 k2 σ : ℤ)
     (hs : sign (EC.ops EC.secp256k1) H k1 k2 (individualPubKey (EC.ops EC.secp256k1) d) d s = .ok σ) :
     partialSigVerify (EC.ops EC.secp256k1) H (sBytes σ)
       (cbytes (EC.ops EC.secp256k1) ((EC.ops EC.secp256k1).mul k1 (EC.ops EC.secp256k1).gen) ++
         cbytes (EC.ops EC.secp256k1) ((EC.ops EC.secp256k1).mul k2 (EC.ops EC.secp256k1).gen))
       (individualPubKey (EC.ops EC.secp256k1) d) s = .ok true :=
-  Btc.C16.Raw.musig2_partial_sig_verifies_secp256k1_raw hcof H s d k1 k2 σ hs
+  Btc.C16.Raw.musig2_partial_sig_verifies_secp256k1_uncond H s d k1 k2 σ hs
 
 theorem musig2_aggregate_verifies_secp256k1_raw
-    (hcof : ∀ g : @Btc.C01.Pt Btc.E2E.secp256k1_p ⟨Btc.E2E.secp256k1_p_prime⟩ EC.secp256k1.toCurveGroup,
-      EC.secp256k1.n • g = 0)
     (H : Bytes → Bytes → Bytes) (l : List Signer) (hl : ∀ t ∈ l, t.ok (EC.ops EC.secp256k1))
     (tweaks : List (Bytes × Bool)) (msg an : Bytes)
     (han : nonceAgg (EC.ops EC.secp256k1) (l.map (Signer.pubNonce (EC.ops EC.secp256k1))) = .ok an)
@@ -640,6 +738,31 @@ theorem musig2_aggregate_verifies_secp256k1_raw
     ∃ r sg, partialSigAgg (EC.ops EC.secp256k1) H (sigs.map sBytes)
         (honestCtx (EC.ops EC.secp256k1) l an tweaks msg none) = .ok (r, sg) ∧
       bip340Verify (EC.ops EC.secp256k1) H ((EC.ops EC.secp256k1).x v.Q) msg r sg = true :=
-  Btc.C16.Raw.musig2_aggregate_verifies_secp256k1_raw hcof H l hl tweaks msg an han v hv hR sigs hs
+  Btc.C16.Raw.musig2_aggregate_verifies_secp256k1_uncond H l hl tweaks msg an han v hv hR sigs hs
+
+/-- **T4 on the executed arithmetic.** The adaptor session computed by `Btc.EC.ops secp256k1`: `partial_sig_agg_adaptor`
+answers a pre-signature, `adapt` with the secret `t` completes it into a BIP340-valid signature for the aggregate key,
+and `extract_adaptor` of the two reveals `t` — both parities of the final nonce. -/
+theorem musig2_adaptor_completes_secp256k1_raw (H : Bytes → Bytes → Bytes)
+    (l : List Signer) (hl : ∀ t ∈ l, t.ok (EC.ops EC.secp256k1)) (tweaks : List (Bytes × Bool)) (msg an : Bytes)
+    (t : ℤ) (ht0 : 0 < t) (ht1 : t < EC.secp256k1.n)
+    (han : nonceAgg (EC.ops EC.secp256k1) (l.map (Signer.pubNonce (EC.ops EC.secp256k1))) = .ok an)
+    (v : SessionValues EC.Point)
+    (hv : sessionValues (EC.ops EC.secp256k1) H (honestCtx (EC.ops EC.secp256k1) l an tweaks msg
+      (some (cbytes (EC.ops EC.secp256k1) ((EC.ops EC.secp256k1).mul t (EC.ops EC.secp256k1).gen)))) = .ok v)
+    (hR : (((l.map Signer.k1).sum + t) + v.b * (l.map Signer.k2).sum) % EC.secp256k1.n ≠ 0)
+    (sigs : List ℤ)
+    (hs : List.Forall₂ (fun u σ => sign (EC.ops EC.secp256k1) H u.k1 u.k2 (u.pk (EC.ops EC.secp256k1)) u.d
+      (honestCtx (EC.ops EC.secp256k1) l an tweaks msg
+        (some (cbytes (EC.ops EC.secp256k1) ((EC.ops EC.secp256k1).mul t (EC.ops EC.secp256k1).gen)))) = .ok σ) l sigs) :
+    ∃ pre sig,
+      partialSigAggAdaptor (EC.ops EC.secp256k1) H (sigs.map sBytes) (honestCtx (EC.ops EC.secp256k1) l an tweaks msg
+        (some (cbytes (EC.ops EC.secp256k1) ((EC.ops EC.secp256k1).mul t (EC.ops EC.secp256k1).gen)))) = .ok pre ∧
+      adapt (EC.ops EC.secp256k1) H pre t (honestCtx (EC.ops EC.secp256k1) l an tweaks msg
+        (some (cbytes (EC.ops EC.secp256k1) ((EC.ops EC.secp256k1).mul t (EC.ops EC.secp256k1).gen)))) = .ok sig ∧
+      bip340Verify (EC.ops EC.secp256k1) H ((EC.ops EC.secp256k1).x v.Q) msg sig.1 sig.2 = true ∧
+      extractAdaptor (EC.ops EC.secp256k1) H sig pre (honestCtx (EC.ops EC.secp256k1) l an tweaks msg
+        (some (cbytes (EC.ops EC.secp256k1) ((EC.ops EC.secp256k1).mul t (EC.ops EC.secp256k1).gen)))) = .ok t :=
+  Btc.C16.Raw.musig2_adaptor_completes_secp256k1 H l hl tweaks msg an t ht0 ht1 han v hv hR sigs hs
 
 end Props.C16
